@@ -17,8 +17,9 @@ def pname(v):
     """dotted name of a parameter projection: p.x, bb.min.y, a1.x ..."""
     x = strip_upd(v)
     parts = []
-    while x[0] == 'field':
-        parts.append(str(x[2]))
+    while x[0] in ('field', 'deref', 'refval'):
+        if x[0] == 'field':
+            parts.append(str(x[2]))
         x = strip_upd(x[1])
     if x[0] == 'param':
         return '.'.join([x[2]] + parts[::-1])
@@ -50,6 +51,14 @@ def clamped_points(ctx, rep, rule):
             x = strip_upd(payload)
             if is_call(x, 'constrain_to_bounding_box') and len(x[2]) == 2:
                 raw, bb = x[2][0], strip_upd(x[2][1])
+                for _ in range(4):
+                    # the box may be handed on by reference to a local that holds it
+                    if bb[0] == 'ref' and bb[1][0][0] == 'loc' and bb[1] in p.final.mem:
+                        bb = strip_upd(p.final.mem[bb[1]])
+                    elif bb[0] in ('refval',):
+                        bb = strip_upd(bb[1])
+                    else:
+                        break
                 src = None
                 for y in sym.walk(bb):
                     if y[0] in ('call', 'pcall') and y[1].endswith('get_intersection_bounding_box'):
